@@ -73,6 +73,11 @@ void enc_dec_segments_init(EncDecSegments *segments_ptr, uint32_t segColCount, u
                            uint32_t pic_width_sb, uint32_t pic_height_sb) {
     segColCount = (segColCount < pic_width_sb) ? segColCount : pic_width_sb;
     segRowCount = (segRowCount < pic_height_sb) ? segRowCount : pic_height_sb;
+    // A picture (or tile group) that is a single SB wide has no wavefront parallelism: its
+    // bands coincide with its rows, so every segment row but the first would be left without
+    // a predecessor segment to start it and the picture would never complete.
+    if (pic_width_sb == 1)
+        segRowCount = 1;
     segRowCount = (segRowCount < segments_ptr->segment_max_row_count)
         ? segRowCount
         : segments_ptr->segment_max_row_count;
